@@ -157,9 +157,13 @@ def gen_ints(rng, signed, n, count):
 
 
 def gen_groups(rng, tier):
-    per = 160 if tier == "quick" else 6000
+    thorough = tier == "thorough"
+    per = 1200 if thorough else 160
     fracs_all = list(range(-4, 71))
     groups = []
+    # In the thorough tier every case goes through the implementation and the oracle; the (much slower)
+    # Coq evaluation of the model takes every 4th format and the exhaustive 8-bit enumerations.
+    nomodel = lambda k: thorough and k % 4 != 0
     # --- formats: the numpy widths x a spread of n_frac (all of -4..70 in the thorough tier)
     formats = []
     for s in (True, False):
@@ -170,19 +174,41 @@ def gen_groups(rng, tier):
     other = [9, 12, 24, 31, 33, 48, 53, 54, 55, 63] + [1, 2, 7, 65, 100]
     for n in other:
         for s in (True, False):
-            for f in ([rng.choice(fracs_all) for _ in range(2 if tier == "quick" else 12)] + [0]):
+            for f in ([rng.choice(fracs_all) for _ in range(2 if tier == "quick" else 8)] + [0]):
                 formats.append((s, n, f))
-    for (s, n, f) in formats:
+    for k, (s, n, f) in enumerate(formats):
         xs = gen_values(rng, s, n, f, per)
-        groups.append(dict(kind="fp", signed=s, n_bits=n, n_frac=f, xs=xs))
+        groups.append(dict(kind="fp", signed=s, n_bits=n, n_frac=f, xs=xs, nomodel=nomodel(k)))
         if n in NP_BITS:
             finite = [b for b in xs if b2f(b) == b2f(b)]
             for shape, layout, part in split_arrays(rng, finite):
-                groups.append(dict(kind="np", signed=s, n_bits=n, n_frac=f, xs=part, shape=shape, layout=layout))
+                groups.append(dict(kind="np", signed=s, n_bits=n, n_frac=f, xs=part, shape=shape, layout=layout,
+                                   nomodel=nomodel(k)))
         # round trip of representable fixed-point values
         if n >= 2:
             groups.append(dict(kind="back", signed=s, n_bits=n, n_frac=f,
-                               vs=gen_ints(rng, s, n, max(per // 3, 40))))
+                               vs=gen_ints(rng, s, n, max(per // 3, 40)), nomodel=nomodel(k)))
+    if thorough:
+        # exhaustive finite sub-domains: every value of every 8-bit format (all n_frac, model and oracle) and
+        # of the 16-bit formats (oracle), through the scalar way back and through the array converter
+        for s in (True, False):
+            lo, hi = bounds(s, 8)
+            for f in fracs_all:
+                groups.append(dict(kind="back", signed=s, n_bits=8, n_frac=f, vs=list(range(lo, hi + 1)), exhaustive=True))
+            lo, hi = bounds(s, 16)
+            for f in (-4, 0, 7, 15, 16, 70):
+                groups.append(dict(kind="back", signed=s, n_bits=16, n_frac=f, vs=list(range(lo, hi + 1)),
+                                   exhaustive=True, nomodel=True))
+            for n, fl in ((8, (0, 4, 8)), (16, (0, 15))):
+                lo, hi = bounds(s, n)
+                for f in fl:
+                    groups.append(dict(kind="npback", signed=s, n_bits=n, n_frac=f, vs=list(range(lo, hi + 1)),
+                                       shape=[hi - lo + 1], layout="c", dtype=("int%d" if s else "uint%d") % n,
+                                       exhaustive=True, nomodel=(n == 16)))
+            sb = 1 if s else 0
+            for f in range(0, 8 - sb + 1):
+                groups.append(dict(kind="unfix", signed=s, n_bits=8, n_frac=f, exhaustive=True,
+                                   wv=[[w, w - 256 if (s and w >= 128) else w] for w in range(256)]))
     # the known finding (round trip of a 64-bit value that is not a double) is exercised on every run
     groups.append(dict(kind="back", signed=True, n_bits=64, n_frac=0, vs=[2 ** 53 + 1], fixed=True))
     # --- extreme scales (still inside the domain when the scaled value is finite)
@@ -197,8 +223,9 @@ def gen_groups(rng, tier):
             for f in sorted(set([0, n // 2, n - sb] + ([rng.randint(0, n - sb)] if n > sb else []))):
                 if 0 <= f <= n - sb:
                     dep.append((s, n, f))
-    for (s, n, f) in dep:
-        groups.append(dict(kind="fix", signed=s, n_bits=n, n_frac=f, xs=gen_values(rng, s, n, f, max(per // 2, 60))))
+    for k, (s, n, f) in enumerate(dep):
+        groups.append(dict(kind="fix", signed=s, n_bits=n, n_frac=f, xs=gen_values(rng, s, n, f, max(per // 2, 60)),
+                           nomodel=nomodel(k)))
         lo, hi = bounds(s, n)
         ws = [v % (1 << n) for v in gen_ints(rng, s, n, max(per // 4, 30))] + [(1 << n) - 1, 1 << (n - 1), (1 << (n - 1)) - 1]
         ws = list(dict.fromkeys(ws))
@@ -212,7 +239,7 @@ def gen_groups(rng, tier):
     # --- NumpyFixToFloatConverter on integer arrays of every dtype
     for s in (True, False):
         for n in NP_BITS:
-            for f in ([-4, 0, n // 2, 70] if tier == "quick" else fracs_all[::3]):
+            for f in ([-4, 0, n // 2, 70] if tier == "quick" else fracs_all[::5]):
                 vs = gen_ints(rng, s, n, max(per // 2, 50))
                 for shape, layout, part in split_arrays(rng, vs):
                     if layout in ("pyscalar",):
@@ -394,7 +421,7 @@ def coq_exprs(g, out):
     """-> list of (label, expression, inputs) ; each expression evaluates to the list of mismatching indices"""
     kind, s, n, f = g["kind"], g["signed"], g["n_bits"], g["n_frac"]
     fmt = "%s (%d) (%d)" % (vbool(s), n, f)
-    if out == ["hang"]:
+    if out == ["hang"] or g.get("nomodel"):
         return []
     if kind == "fp":
         return [("float_to_fp", "mismatches (on_bits (float_to_fp %s)) %s 0" % (fmt, plist(zip(g["xs"], out))), g["xs"])]
@@ -433,6 +460,8 @@ def size(g):
 def classify(chk, g, out):
     kind, s, n, f = g["kind"], g["signed"], g["n_bits"], g["n_frac"]
     chk.count("groups:" + kind)
+    if g.get("exhaustive"):
+        chk.count("exhaustive-groups:%s/%d-bit" % (kind, n))
     chk.count("n_bits:%d" % n, size(g))
     if kind in ("fp", "np", "fix"):
         lo, hi = bounds(s, max(n, 1))
@@ -567,5 +596,8 @@ def run(chk, args):
         "straddling integers of the scaled line, uniform reals over 1.3x the range, random bit patterns, +-inf/NaN "
         "(outside the domain); arrays of 16 shape/layout kinds (0-d, Python and numpy scalars, empty, strided, "
         "transposed, Fortran order, up to 4-d); fixed-point integers incl. 2^53+-1 and the range ends for the way "
-        "back; a malformed-format stream. non-trivial = input inside the property's domain whose result is not "
+        "back; a malformed-format stream. thorough tier: all n_frac in -4..70 for the numpy widths, 1200 values per "
+        "format, the model evaluated on every 4th format; exhaustive enumeration of every value of every 8-bit "
+        "format (all n_frac; model + oracle) and of 16-bit formats (oracle) for the way back, scalar and array, and of "
+        "all 256 words for fix_to_float. non-trivial = input inside the property's domain whose result is not "
         "trivially the zero of a zero input (for the way back: v != 0); distinct by (converter, format, input bits)")
